@@ -154,6 +154,8 @@ def angle_unit(term: P):
         kinds = {angle_unit(x) for x in a[1]}
         kinds.discard(None)
         return kinds.pop() if len(kinds) == 1 else None
+    if a[0] == "repeat":
+        return angle_unit(a[1])
     if a[0] == "sub":
         base = a[1].as_atom()
         if base and base[0] == "attr" and base[2] == "parameters":
